@@ -30,6 +30,8 @@ def bootstrap():
     if got != repo:
         sys.stderr.write('HARNESS-ERROR: mpmath imported from %s, wanted %s\n' % (got, repo))
         sys.exit(2)
+    from simkit import pristine
+    pristine.snapshot()       # imports every submodule; records the pristine state
     return mpmath
 
 def pkg_dir():
